@@ -2,6 +2,7 @@ package props
 
 import (
 	"fmt"
+	mbits "math/bits"
 
 	"github.com/openacid/low/bitmap"
 
@@ -26,6 +27,7 @@ func init() {
 		Word32: true,
 		Level:  "exploration",
 		Rule: "E1 bounded-exhaustive enumeration: every bitmap of 1..N words over {0, 1, 1<<63, 1|1<<63, 1<<31, ^0, 3<<62} × every range 0 ≤ i ≤ end ≤ 64·len with i inside the bitmap: NextOne; and PrevOne for end ≥ 1. plus long sparse bitmaps (24/33 words, thorough 40/70; all zero except ≤2 islands at every pair of positions) × every range whose ends lie within 1 of a word boundary or half-word; and nearly empty bitmaps within 9 words of every power of two from 2^10 to 2^14 words with ranges spanning almost everything; oracle: linear scan over [i,end). " +
+			"Plus, on 64-bit builds, a sparse bitmap of 2^25 words (2^31 bits) × every range with both ends in {0, 1, 63, 64, 2^30.., MaxInt32-130.., MaxInt32} (17 values), against a scan that steps over empty words. " +
 			"A case is one call; non-trivial when the bitmap has a 1 and the range is non-empty.",
 		Assumptions: []string{"other word patterns are not enumerated (the code's case splits are: first/last word masked, all-zero words skipped, result clipped to the range)"},
 		Run:         c13Run,
@@ -81,6 +83,7 @@ func c13Run(c *mc.Ctx) {
 		c13Long(c, L)
 	}
 	c13Big(c)
+	c13Giant(c)
 	c.Par(len(shards), func(si int) {
 		if c.TooMany() {
 			return
@@ -349,9 +352,81 @@ func c13Big(c *mc.Ctx) {
 	})
 }
 
+// c13RefNext / c13RefPrev: the statement's answer by a scan that steps over empty
+// words (for bitmaps of 2^25 words, where a bit-by-bit scan takes seconds).
+func c13RefNext(w []uint64, i, end int32) int32 {
+	for p := int64(i); p < int64(end); {
+		if w[p>>6] == 0 {
+			p = (p>>6 + 1) << 6
+			continue
+		}
+		if w[p>>6]>>uint(p&63)&1 == 1 {
+			return int32(p)
+		}
+		p++
+	}
+	return -1
+}
+
+func c13RefPrev(w []uint64, i, end int32) int32 {
+	for p := int64(end) - 1; p >= int64(i); {
+		if w[p>>6] == 0 {
+			p = (p>>6)<<6 - 1
+			continue
+		}
+		if w[p>>6]>>uint(p&63)&1 == 1 {
+			return int32(p)
+		}
+		p--
+	}
+	return -1
+}
+
+// c13Giant: the top of the int32 position range (64-bit builds): a sparse bitmap of
+// 2^25 words; ranges starting and ending at both ends, in the middle and at the
+// last positions an int32 can name (end = 64*len = 2^31 itself is not an int32).
+func c13Giant(c *mc.Ctx) {
+	if mbits.UintSize != 64 {
+		return
+	}
+	const M = int32(1<<31 - 1)
+	l := 1 << 25
+	w := c13BigBitmap(l, 9)
+	pts := []int32{0, 1, 63, 64, 1 << 30, 1<<30 + 1, 1<<30 + 2, 1<<30 + 3, M - 130, M - 128, M - 127, M - 65, M - 64, M - 63, M - 62, M - 1, M}
+	var evals int64
+	for _, i := range pts {
+		for _, end := range pts {
+			if i > end {
+				continue
+			}
+			cs := c13Case{I: i, End: end, Len: l, Pattern: 9}
+			if g, p := nextOne(w, i, end); p || g != c13RefNext(w, i, end) {
+				c.Fail(6<<50|int64(i)<<20|int64(end&0xfffff), "NextOne", "NextOne/giant", cs, fmt.Sprintf("%d panic=%v", g, p), fmt.Sprintf("%d panic=false", c13RefNext(w, i, end)))
+			}
+			evals++
+			if end >= 1 {
+				if g, p := prevOne(w, i, end); p || g != c13RefPrev(w, i, end) {
+					c.Fail(6<<50|1<<49|int64(i)<<20|int64(end&0xfffff), "PrevOne", "PrevOne/giant", cs, fmt.Sprintf("%d panic=%v", g, p), fmt.Sprintf("%d panic=false", c13RefPrev(w, i, end)))
+				}
+				evals++
+			}
+		}
+	}
+	c.Count(evals, evals)
+	c.Expect(evals)
+	c.Add("giant_bitmap_cases", evals)
+}
+
 func c13BigBitmap(l, pat int) []uint64 {
 	w := make([]uint64, l)
 	switch pat {
+	case 9:
+		// sparse, 2^25 words
+		w[0] = 1<<63 | 1
+		w[l/2] = 6
+		w[l-3] = 1
+		w[l-2] = 1 << 63
+		w[l-1] = 1<<63 | 1<<62 | 1<<1
 	case 0:
 		w[l-1] = 1<<63 | 1
 	case 1:
@@ -377,6 +452,16 @@ func c13Judge(kind string, cs c13Case) (got, want string) {
 		w = c13BigBitmap(cs.Len, cs.Pattern)
 	}
 	bit := func(i int32) bool { return w[i>>6]>>uint(i&63)&1 == 1 }
+	if cs.Len >= 1<<24 {
+		switch kind {
+		case "NextOne":
+			g, p := nextOne(w, cs.I, cs.End)
+			return fmt.Sprintf("%d panic=%v", g, p), fmt.Sprintf("%d panic=false", c13RefNext(w, cs.I, cs.End))
+		case "PrevOne":
+			g, p := prevOne(w, cs.I, cs.End)
+			return fmt.Sprintf("%d panic=%v", g, p), fmt.Sprintf("%d panic=false", c13RefPrev(w, cs.I, cs.End))
+		}
+	}
 	switch kind {
 	case "NextOne":
 		wv := int32(-1)
